@@ -58,6 +58,10 @@ def gen_case(rng, i):
             extra.append(("L", "43", rng.choice(["N", "N", "y", "YES", ""])))
         if rng.random() < 0.8 and not any(n[1] == "34" for n in tree):
             extra.append(("L", "34", str(rng.choice([1, 12, 99999]))))
+        if rng.random() < 0.4:
+            extra.append(("L", "97", rng.choice(["Y", "Y", "N"])))          # PossResend: still a NEW number
+        if rng.random() < 0.3:
+            extra.append(("L", "122", "20231231-23:59:59"))
         if K.wf_msg(mtype, tree + extra, True) or True:
             tree = tree + extra
             mode = "alloc-stale"
@@ -71,7 +75,31 @@ def gen_case(rng, i):
         tree = tree + [("E", "9001")]          # RepeatingTagError value: encode raises after allocating
     sender = rng.choice(["SND", "S\xe9", "A=B", "S€"]) if rng.random() < 0.2 else "SND"
     nxt = rng.choice([1, 2, 9, 10, 99, 100, 12345, 2**31, 2**63 + 5])
-    return (mtype, tree, sender, "TGT", nxt, raw, NOW), mode
+    # one node per top-level tag (a container cannot hold two), then the encoding mode is read off the final
+    # message by the encoder's documented rule - the generator's intention above is only a bias
+    seen, dedup = set(), []
+    for nd in tree:
+        if nd[1] in seen:
+            continue
+        seen.add(nd[1])
+        dedup.append(nd)
+    tree = dedup
+    return (mtype, tree, sender, "TGT", nxt, raw, NOW), classify_mode(mtype, tree, raw)
+
+
+def classify_mode(mtype, tree, raw):
+    """which MsgSeqNum the encoder must use: raw -> the message's own; SequenceReset -> its own; PossDupFlag exactly
+    "Y" -> its own; otherwise the session's next number (alloc-stale: although the message carries a 34 and / or
+    other header-ish tags of its own)"""
+    top = {nd[1]: nd for nd in tree}
+    if raw:
+        return "raw"
+    if mtype == "4":
+        return "seqreset"
+    pd = top.get("43")
+    if pd is not None and pd[0] == "L" and pd[2] == "Y":
+        return "possdup"
+    return "alloc-stale" if ("34" in top or "43" in top or "97" in top or "122" in top) else "alloc"
 
 
 class _W:
